@@ -40,13 +40,15 @@ def sstepCode : SStep → PI
   | .up => .pathDotDot
   | .name n => .namePush [] (strToRunes n)
 
+def rootCode : SRoot → List PI
+  | .abs => [.pathRoot] | .cur => [.pathSetCurrent] | .rel => []
+
 def operandCode : Operand → List PI
   | .lit s => [.lit (strToRunes s)]
   | .num x => [.num x]
   | .scalar e => scalarCode e
   | .path p =>
-    (match p.root with | .abs => [.pathRoot] | .cur => [.pathSetCurrent] | .rel => []) ++
-      p.steps.map sstepCode ++ [.evalLocPath]
+    rootCode p.root ++ p.steps.map sstepCode ++ [.evalLocPath]
 
 def predCode (kv : Str × Operand) : List PI :=
   [.predStart, .namePush [] (strToRunes kv.1), .evalLocPath] ++ operandCode kv.2 ++ [.eq, .predEnd]
@@ -60,7 +62,7 @@ def stepCode : Step → List PI
 /-- code of a location path without the final evalLocPath -/
 def pathCode : PathE → List PI
   | .basic root steps =>
-    (match root with | .abs => [.pathRoot] | .cur => [.pathSetCurrent] | .rel => []) ++ steps.flatMap stepCode
+    rootCode root ++ steps.flatMap stepCode
   | .deref inner steps => pathCode inner ++ [.deref] ++ steps.flatMap stepCode
 
 mutual
